@@ -198,4 +198,69 @@ def abbrevCodes (a : Abbrev) (k : Key) : Codes :=
 def abbrevPairs : List (Abbrev × Key) :=
   allKeys.flatMap fun k => (allAbbrevKinds.filter fun a => a.applies k).map fun a => (a, k)
 
+/-! ### Decoration words separated by ANY white space (round 11, B3)
+
+The manual speaks of "adding the word not" and of the verb `is` being ignored; the property text lets
+the words be separated from the relation by spaces. A *decoration text* is any string made of white
+space (the model's: space, tab, LF, VT, FF, CR), `!`, and the letters of `not` / `is` in either case.
+`carriesNeg` is the property's own clause: negated exactly when the stripped lower-cased spelling starts
+with `!`, or carries `not` followed by a white-space character, or a white-space character followed by
+`not`. -/
+
+def decoChar (c : Nat) : Bool :=
+  isSpace c || c == 33 || c == 110 || c == 111 || c == 116 || c == 105 || c == 115 ||
+    c == 78 || c == 79 || c == 84 || c == 73 || c == 83
+
+/-- `not` followed by a white-space character somewhere in `t`. -/
+def hasNotWs : Str → Bool
+  | [] => false
+  | c :: t => (sNot.isPrefixOf (c :: t) && (match (c :: t).drop 3 with | d :: _ => isSpace d | [] => false)) || hasNotWs t
+
+/-- A white-space character followed by `not` somewhere in `t`. -/
+def hasWsNot : Str → Bool
+  | [] => false
+  | c :: t => (isSpace c && sNot.isPrefixOf t) || hasWsNot t
+
+def carriesNeg (s : Str) : Bool :=
+  let t := strip (lower s)
+  t.head? == some 33 || hasNotWs t || hasWsNot t
+
+/-- One decoration word with the white space that separates it from what follows (prefix position) or
+precedes (suffix position). -/
+structure SpWord where
+  word : Str     -- any case of `not` / `is`
+  ws : Str       -- non-empty white space
+  deriving DecidableEq, Repr, Inhabited
+
+def SpWord.ok (w : SpWord) : Bool :=
+  (lower w.word == sNot || lower w.word == [105, 115]) && w.ws.all isSpace && !w.ws.isEmpty
+
+def SpWord.isNot (w : SpWord) : Bool := lower w.word == sNot
+
+/-- A spaced decoration: outer white space, an optional `!` followed by any white space, prefix words
+(each followed by its white space), suffix words (each preceded by its white space). -/
+structure Spaced where
+  outerL : Str := []
+  bang : Option Str := none
+  pre : List SpWord := []
+  post : List SpWord := []
+  outerR : Str := []
+  deriving DecidableEq, Repr, Inhabited
+
+def Spaced.ok (d : Spaced) : Bool :=
+  d.outerL.all isSpace && d.outerR.all isSpace && (match d.bang with | some w => w.all isSpace | none => true) &&
+  d.pre.all SpWord.ok && d.post.all SpWord.ok
+
+def Spaced.before (d : Spaced) : Str :=
+  d.outerL ++ (match d.bang with | some w => 33 :: w | none => []) ++ d.pre.flatMap fun w => w.word ++ w.ws
+
+def Spaced.after (d : Spaced) : Str :=
+  (d.post.flatMap fun w => w.ws ++ w.word) ++ d.outerR
+
+/-- The decorated text of a body `X` (a formula, an abbreviated formula or a name). -/
+def renderSpaced (d : Spaced) (X : Str) : Str := d.before ++ X ++ d.after
+
+/-- The flag the decoration carries: `!`, a prefix `not<ws>` or a suffix `<ws>not`. -/
+def Spaced.neg (d : Spaced) : Bool := d.bang.isSome || d.pre.any SpWord.isNot || d.post.any SpWord.isNot
+
 end Paroxy.Spec.NP
